@@ -189,7 +189,7 @@ var c15RemotePool = []c15Codec{
 	{Kind: "video", PT: 121, Name: "rtx", Clock: 90000, Fmtp: "apt=55"}, // apt to an unlisted payload
 	// a codec of one kind under the number a local codec of the OTHER kind is registered with (resolution
 	// of that number must find the negotiated codec also while the other kind is not negotiated at all)
-	{Kind: "video", PT: 111, Name: "VP8", Clock: 90000, FB: []string{"nack"}},                                    // local opus is 111
+	{Kind: "video", PT: 111, Name: "VP8", Clock: 90000, FB: []string{"nack"}},                      // local opus is 111
 	{Kind: "audio", PT: 96, Name: "opus", Clock: 48000, Ch: 2, Fmtp: "minptime=10;useinbandfec=1"}, // local VP8 is 96
 }
 
@@ -537,7 +537,7 @@ func c15Direct(c *vkit.Check, memo c15Memo, cs c15Case, parsed *sdp.SessionDescr
 func c15PC(t *testing.T, c *vkit.Check, cs c15Case, offer string, remote []c15Codec) {
 	locals := c15Locals(cs)
 	c.Eval()
-	api := vNewAPI(t, vAPIOpts{media: func(m *MediaEngine) error { return c15Register(m, locals) }})
+	api := vNewAPI(t, vAPIOpts{virtualNet: true, media: func(m *MediaEngine) error { return c15Register(m, locals) }})
 	pc := vNewPC(t, api, nil)
 	defer func() { _ = pc.Close() }()
 	c.Guard("pc "+vkit.Short(cs), cs, func() {
